@@ -39,7 +39,7 @@ ASSUMPTIONS = [
     "title: a character following punctuation may be either case (word boundaries other than whitespace are not documented); case filters use an alphabet where upper()/lower() are 1:1",
     "wordcount: strings with a joiner inside a word (don't, a-b, a_b) are discarded as undefined",
     "striptags: inputs are built from text without < > &, well-formed tags and comments without '>' inside",
-    "round: 1 ulp-scale tolerance on ceil/floor (the filter multiplies by 10**precision in floating point); an int input may come back as int for method 'common'",
+    "round: method 'common' is Python's round(value, precision), compared exactly (incl. non-finite and near-max floats, which it returns unchanged); 1 ulp-scale tolerance on ceil/floor only (the filter multiplies by 10**precision in floating point); non-finite values are not generated for ceil/floor",
     "filesizeformat: non-negative values below 1000**9; at a unit boundary either unit is accepted; float values below the base are not generated",
     "format: Python's % operator is the definition",
 ]
@@ -192,7 +192,14 @@ def _classify(case, name, value, args, kwargs, leeway):
     elif name == "round":
         p = fs.bind(name, args, kwargs)
         labels.append("round_" + p["method"])
-        nt = float(value) * 10 ** p["precision"] != int(float(value) * 10 ** p["precision"])
+        fv = float(value)
+        if fv != fv or fv in (float("inf"), float("-inf")) or abs(fv) >= 1e22:
+            labels.append("round_extreme")
+            nt = True
+        else:
+            nt = fv * 10 ** p["precision"] != int(fv * 10 ** p["precision"])
+            if p["precision"] >= 1 and abs(abs(fv * 10 ** p["precision"]) % 1 - 0.5) < 1e-6:
+                labels.append("round_near_tie")
         if p["precision"] < 0:
             labels.append("negative_precision")
     elif name == "filesizeformat":
@@ -478,9 +485,21 @@ def _g_filesize(draw):
 
 @st.composite
 def _g_round(draw):
-    mode = draw(st.sampled_from(["half", "float", "float", "int", "big", "tiny"]))
+    mode = draw(st.sampled_from(["half", "float", "float", "int", "big", "tiny", "decimal", "decimal", "extreme"]))
     prec = draw(st.sampled_from([0, 0, 1, 2, 3, 6, -1, -2, -3, 4, 5]))
-    if mode == "half":
+    method = draw(st.sampled_from(["common", "common", "ceil", "floor", "ceil", "floor"]))
+    if mode == "decimal":
+        # decimal literals next to a rounding boundary at precision >= 1 (0.45, 1.115, 2.675, ...): the binary
+        # value lies just above or below the tie
+        prec = draw(st.sampled_from([1, 1, 2, 2, 3, 4]))
+        n = draw(st.integers(-3000, 3000)) * 10 + draw(st.sampled_from([5, 5, 5, 4, 6]))
+        value = float("%de%d" % (n, -(prec + 1)))
+    elif mode == "extreme":
+        # non-finite and near-max floats are only defined for 'common' (round returns them unchanged)
+        method = "common"
+        value = draw(st.sampled_from([{"$": "f", "v": "inf"}, {"$": "f", "v": "-inf"}, {"$": "f", "v": "nan"}, 1e308, -1e308,
+                                      1.7976931348623157e308, 1e300, 9007199254740993.0, 1e22, 5e-324]))
+    elif mode == "half":
         value = (draw(st.integers(-2000, 2000)) + 0.5) / 10 ** max(prec, 0) * (10 ** -min(prec, 0))
     elif mode == "float":
         value = draw(st.floats(min_value=-1e6, max_value=1e6, allow_nan=False, allow_infinity=False))
@@ -493,7 +512,8 @@ def _g_round(draw):
     given = {}
     if prec or draw(st.booleans()):
         given["precision"] = prec
-    _opt(draw, given, "method", st.sampled_from(["common", "ceil", "floor", "ceil", "floor"]))
+    if method != "common" or draw(st.booleans()):
+        given["method"] = method
     args, kwargs = _call_shape(draw, "round", given)
     return {"filter": "round", "value": value, "args": args, "kwargs": kwargs}
 
@@ -551,7 +571,8 @@ def floors(total, tier):
     if low:
         return "filters generated fewer than 300 times: %s" % low
     for lab, need in (("truncated", 1000), ("at_limit", 500), ("long_word", 1000), ("hyphenated", 500), ("multiline", 1000),
-                      ("num_nonfinite", 300), ("num_huge", 300), ("num_nonascii", 100), ("unit_boundary", 200), ("round_ceil", 300), ("round_floor", 300)):
+                      ("num_nonfinite", 300), ("num_huge", 300), ("num_nonascii", 100), ("unit_boundary", 200), ("round_ceil", 300), ("round_floor", 300), ("round_common", 500), ("round_near_tie", 300),
+                      ("round_extreme", 100)):
         if total.labels.get(lab, 0) < need:
             return "label %s below floor: %d < %d" % (lab, total.labels.get(lab, 0), need)
     return None
